@@ -196,6 +196,14 @@ def cli_as_call(c):
     return (c['kind'], c['name'], c.get('exc'))
 
 
+def _open_unless_fifo(fn):
+    # (a blocking open of a named pipe would wait for a writer for ever)
+    import stat as _st
+    if _st.S_ISFIFO(_oo['os.stat'](fn).st_mode):
+        return
+    _oo['open'](fn, 'rb').close()
+
+
 def genuine_oserror(e):
     fn = getattr(e, 'filename', None)
     if e.errno is None:
@@ -203,9 +211,7 @@ def genuine_oserror(e):
     if fn is None:
         return False
     for probe in (lambda: _oo['os.stat'](fn), lambda: _oo['os.close'](_oo['os.open'](fn, os.O_RDONLY | os.O_NONBLOCK)),
-                  lambda: _oo['os.listdir'](fn),
-                  # (a blocking open of a named pipe would wait for a writer for ever)
-                  lambda: _oo['os.close'](_oo['os.open'](fn, os.O_RDONLY | os.O_NONBLOCK | getattr(os, 'O_NOCTTY', 0)))):
+                  lambda: _oo['os.listdir'](fn), lambda: _open_unless_fifo(fn)):
         try:
             probe()
         except OSError as e2:
